@@ -43,6 +43,7 @@ import (
 	hs "github.com/anyproto/any-sync/net/secureservice/handshake"
 	"github.com/anyproto/any-sync/util/cidutil"
 	"github.com/anyproto/any-sync/util/crypto"
+	"github.com/anyproto/any-sync/util/crypto/cryptoproto"
 
 	"verifharness/internal/corr"
 )
@@ -437,16 +438,46 @@ func (w *world) setup() {
 			}
 			return fmt.Sprintf("edpriv %d %s", len(in), red), cls(err)
 		}})
+	var keyObs string
+	// extra seeds for the generated decoder: unknown fields of every wire type, groups, overlong varints
+	kp := must(signPub.Marshall())
+	unk := func(num protowire.Number, typ protowire.Type, val []byte) []byte {
+		return append(protowire.AppendTag(append([]byte{}, kp...), num, typ), val...)
+	}
 	w.add(&target{name: "ed25519.proto", factor: 8, slack: 1 << 16, nested: true,
-		seeds: [][]byte{must(signPub.Marshall()), must(w.keys.SignKey.Marshall())},
+		seeds: [][]byte{kp, must(w.keys.SignKey.Marshall()), must(aesKey.Marshall()), // a 32-byte key of another type
+			protowire.AppendBytes(protowire.AppendTag(protowire.AppendVarint(protowire.AppendTag(nil, 1, protowire.VarintType), 1), 2, protowire.BytesType), make([]byte, 32)),
+			unk(5, protowire.VarintType, []byte{0x80, 0x80, 0x01}), unk(6, protowire.Fixed64Type, make([]byte, 8)), unk(7, protowire.Fixed32Type, make([]byte, 4)),
+			unk(8, protowire.BytesType, []byte{3, 1, 2, 3}), append(unk(9, protowire.StartGroupType, []byte{0x08, 0x01}), 0x4c),
+			unk(10, protowire.StartGroupType, []byte{0x53, 0x54, 0x54}), unk(11, protowire.EndGroupType, nil),
+			{0x08, 0xff, 0xff, 0xff, 0xff, 0xff, 0xff, 0xff, 0xff, 0xff, 0x01}, {0x08, 0xff, 0xff, 0xff, 0xff, 0xff, 0xff, 0xff, 0xff, 0xff, 0xff, 0x01},
+			{0x12, 0xff, 0xff, 0xff, 0xff, 0xff, 0xff, 0xff, 0xff, 0xff, 0x01}, {0x12, 0xff, 0xff, 0xff, 0xff, 0xff, 0xff, 0xff, 0xff, 0x7f}, {0x00}, {0x80, 0x80, 0x80, 0x80, 0x10, 0x00}},
 		run: func(in []byte) error {
+			keyObs = ""
+			k := &cryptoproto.Key{}
+			kerr := k.UnmarshalVT(in)
 			_, e1 := crypto.UnmarshalEd25519PublicKeyProto(in)
 			_, e2 := crypto.UnmarshalEd25519PrivateKeyProto(in)
 			_, e3 := crypto.NewKeyStorage().PubKeyFromProto(in)
+			ko := "err"
+			if kerr == nil {
+				ko = fmt.Sprintf("ok:%d:%d", uint32(k.Type), len(k.Data))
+			}
+			eo := "err"
+			if e1 == nil || strings.HasPrefix(e1.Error(), "invalid ed25519 public key") {
+				eo = "crypto" // 32 bytes of the right type reached the point decoder
+			}
+			keyObs = fmt.Sprintf("key=%s ed=%s", ko, eo)
 			if e1 != nil && e2 != nil && e3 != nil {
 				return e1
 			}
 			return nil
+		},
+		model: func(in []byte, err error) (string, string) {
+			if len(in) > 2000 {
+				return "", ""
+			}
+			return "keyproto " + hexs(in), keyObs
 		}})
 	w.add(&target{name: "key.strings", factor: 64, slack: 1 << 16,
 		seeds: [][]byte{[]byte(w.keys.PeerId), []byte(signPub.Account()), []byte(signPub.Network())},
@@ -904,6 +935,39 @@ func Run(r *corr.Run) {
 			hdr := binary.AppendUvarint(nil, n)
 			w.one(t, hdr, "snappy-declen")
 			w.one(t, append(hdr, 0x00, 'a'), "snappy-declen")
+		}
+	}
+	// head sync: hostile narrow / reversed / wrapping ranges, limits and element flags (the diff has df=4, thr=2)
+	for _, t := range w.targets {
+		if t.name != "headsync.range-request" {
+			continue
+		}
+		maxU := uint64(math.MaxUint64)
+		type rg struct {
+			from, to uint64
+			limit    uint32
+			els      bool
+		}
+		var cases [][]rg
+		for _, base := range []uint64{0, 1, 5, 1 << 32, 1 << 63, maxU - 3, maxU - 1, maxU} {
+			for _, wdt := range []uint64{0, 1, 2, 3, 4, 5} { // narrower than, equal to and just above df
+				for _, lim := range []uint32{0, 1, math.MaxUint32} {
+					cases = append(cases, []rg{{base, base + wdt, lim, false}, {base, base + wdt, lim, true}})
+				}
+			}
+			cases = append(cases, []rg{{base, base - 1, 0, true}}, []rg{{base + 1, base, math.MaxUint32, false}}) // from > to
+		}
+		var many []rg
+		for i := 0; i < 64; i++ { // the element flag on huge ranges, many times in one request
+			many = append(many, rg{0, maxU, uint32(i), true})
+		}
+		cases = append(cases, many, []rg{{maxU, 0, 0, true}, {0, maxU, 0, false}, {1 << 63, (1 << 63) - 1, 7, true}})
+		for _, c := range cases {
+			req := &spacesyncproto.HeadSyncRequest{SpaceId: "space1"}
+			for _, x := range c {
+				req.Ranges = append(req.Ranges, &spacesyncproto.HeadSyncRange{From: x.from, To: x.to, Limit: x.limit, Elements: x.els})
+			}
+			w.one(t, must(req.MarshalVT()), "headsync-guard")
 		}
 	}
 	// topics: guard-directed
